@@ -510,3 +510,337 @@ Proof.
         unfold W, writes in Hwk. rewrite <- So, (proj1 P4) in Hwk. cbn in Hwk. discriminate.
       * exists q. rewrite (Hold _ _ Eo P1), Et. repeat split; auto; try apply P4.
 Qed.
+
+(* ---------------------------------------------------------------- a call returns *)
+Lemma ret_applied b t i op rk rev val p :
+  aget (b_pend b) op = Some p -> guards0 b (t, ERet i op rk rev val) = [] -> rk < 10 -> p_kind p <> kWatch ->
+  p_i p = i /\ is_done b op = false /\ exists r0 v0 t0, p_applied p = Some (rk, r0, v0, t0) /\ (rk = oOk -> r0 = rev).
+Proof.
+  intros Hop G Hrk Hk. cbn in G. rewrite Hop in G. apply app_nil_l2 in G. destruct G as [Gi G]. apply app_nil_l2 in G. destruct G as [Gd G].
+  apply pwhen_nil in Gi. apply Bool.negb_false_iff in Gi. apply Z.eqb_eq in Gi. apply pwhen_nil in Gd.
+  split; [exact Gi|]. split; [exact Gd|].
+  apply Z.eqb_neq in Hk. rewrite Hk in G. apply Z.ltb_lt in Hrk. rewrite Hrk in G. cbn [andb negb] in G.
+  destruct (p_applied p) as [[[[ok r0] v0] t0]|]; [|discriminate].
+  apply pwhen_nil in G. apply Bool.negb_false_iff in G.
+  apply andb_prop in G. destruct G as [G _]. apply andb_prop in G. destruct G as [G1 G2]. apply Z.eqb_eq in G1. subst ok.
+  exists r0, v0, t0. split; [reflexivity|]. intros ->. change (oOk =? oOk) with true in G2. cbn in G2. rewrite Bool.orb_false_r in G2.
+  apply Z.eqb_eq in G2. exact G2.
+Qed.
+
+(* the answer to the attempt in flight of a claiming instance is a success *)
+Lemma refresh_succeeds b t i op rk rev val :
+  VInv b -> guards0 b (t, ERet i op rk rev val) = [] -> rk < 10 -> current b i op ->
+  rk = oOk /\ exists p, aget (b_pend b) op = Some p /\ is_hb p /\ p_i p = i /\ tok_of b (p_val p) = io_tok (inst_of b i) /\
+                        last_rev_of b (ic_key (cfg_of b i)) = rev.
+Proof.
+  intros IV G Hrk (Fi & Te & Eo).
+  destruct (v_flag _ IV i Fi) as (_ & _ & _ & (rh & rest & _ & _ & W3)). cbv zeta in W3.
+  destruct (W3 Te) as (p & P1 & P2 & P3 & P4 & P5 & P6 & P7). rewrite Eo in P1.
+  assert (Hk : p_kind p <> kWatch) by (rewrite (proj1 P4); discriminate).
+  destruct (ret_applied b t i op rk rev val p P1 G Hrk Hk) as (_ & _ & (r0 & v0 & t0 & Ea & Er)).
+  rewrite Ea in P7. destruct P7 as [Ok Lr]. split; [exact Ok|]. exists p. repeat split; auto; try apply P4. rewrite Lr. auto.
+Qed.
+
+Lemma V_ret b t i op rk rev val :
+  Inv b -> Inv2 b -> LInv b -> TInv b -> VInv b -> b_now b <= t ->
+  guards0 b (t, ERet i op rk rev val) = [] -> fastb b t = true -> rk < 10 ->
+  VInv (bapply b (t, ERet i op rk rev val)).
+Proof.
+  intros I I2 IL IT IV Hn G F Hrk.
+  destruct (aget (b_pend b) op) as [p|] eqn:Hop.
+  2:{ cbn in G. rewrite Hop in G. discriminate. }
+  destruct (ret_shape b t i op rk rev val p Hop) as (Ht & Hp & Hd & Hl & Hv & Hc & Hr & _).
+  destruct (ret_shape_hb b t i op rk rev val p Hop) as (_ & Hx).
+  set (b' := bapply b (t, ERet i op rk rev val)) in *.
+  set (lr := mkLR i (p_kind p) (p_inner p) rk rev (if p_kind p =? kGet then val else p_val p) (p_key p) t) in *.
+  pose proof (l_time _ IL) as Ltime.
+  assert (Et : forall v, tok_of b' v = tok_of b v) by (intros; apply tok_same; exact Hv).
+  assert (El : forall k, last_rev_of b' k = last_rev_of b k) by (intros; apply last_rev_same; exact Hl).
+  assert (Ec : forall j, cfg_of b' j = cfg_of b j) by (intros; apply cfg_same; exact Hc).
+  assert (Ed : forall o, is_done b' o = (op =? o) || is_done b o).
+  { intros o. unfold is_done. rewrite Hd. cbn [existsb]. rewrite (Z.eqb_sym o op). reflexivity. }
+  assert (Edt : forall o, is_done b o = true -> is_done b' o = true) by (intros o X; rewrite Ed, X; apply Bool.orb_true_r).
+  assert (Edf : forall o, is_done b' o = false -> o <> op /\ is_done b o = false).
+  { intros o X. rewrite Ed in X. apply Bool.orb_false_iff in X. destruct X as [A B]. split; [apply Z.eqb_neq in A; congruence|exact B]. }
+  assert (Ef : forall j, io_flag (inst_of b' j) = io_flag (inst_of b j)) by (intros j; destruct (Hx j) as (X & _); exact X).
+  assert (Ea : forall j, io_acq_rev (inst_of b' j) = io_acq_rev (inst_of b j)) by (intros j; destruct (Hx j) as (_ & _ & _ & _ & _ & _ & X & _); exact X).
+  (* an attempt in flight afterwards was in flight before *)
+  assert (Cur : forall j o, current b' j o -> current b j o).
+  { intros j o (Fj & Te & Eo). destruct (Hx j) as (Xf & _ & Xo & _ & _ & Xe & _). cbv zeta in Xf, Xo, Xe.
+    rewrite Xf in Fj. rewrite Xo in Eo. rewrite Xe in Te.
+    destruct ((i =? j) && (io_hb_op (inst_of b j) =? op) && (io_hb_te (inst_of b j) <? 0)); [pose proof (t_now0 _ IT); lia|]. unfold current. auto. }
+  (* the attempt that stops being in flight has been applied *)
+  assert (St : forall j R, stale b j R -> stale b' j R).
+  { intros j R S o q A Hh Hj Hn' Hnc. rewrite Hp in A. apply (S o q A Hh Hj Hn'). intros C. apply Hnc.
+    destruct C as (Fj & Te & Eo). destruct (Hx j) as (Xf & _ & Xo & _ & _ & Xe & _). cbv zeta in Xf, Xo, Xe.
+    unfold current. rewrite Xf, Xo, Xe.
+    destruct ((i =? j) && (io_hb_op (inst_of b j) =? op) && (io_hb_te (inst_of b j) <? 0)) eqn:Ecd; [|auto].
+    exfalso. apply andb_prop in Ecd. destruct Ecd as [Ecd _]. apply andb_prop in Ecd. destruct Ecd as [_ Eop]. apply Z.eqb_eq in Eop.
+    assert (Eoo : o = op) by congruence. rewrite Eoo, Hop in A. inversion A. subst q.
+    assert (Hk : p_kind p <> kWatch) by (rewrite (proj1 Hh); discriminate).
+    destruct (ret_applied b t i op rk rev val p Hop G Hrk Hk) as (_ & _ & (r0 & v0 & t0 & Eap & _)). congruence. }
+  destruct IV as [V1 V2 V3 V4 V5]. pose proof (mkV b V1 V2 V3 V4 V5) as IV.
+  constructor.
+  - intros o q. rewrite Hp. apply V1.
+  - intros o1 c1 o2 c2. rewrite Hp, !Et. apply V2.
+  - intros o c r v ta. rewrite Hp, El. intros A K Eap D. destruct (Edf o D) as [Hne D0].
+    destruct (V3 o c r v ta A K Eap D0) as [X Y]. split; [exact X|apply St; exact Y].
+  - intros g r. rewrite Hr, Ea, El, Ef. intros A Wn T Hlt. rewrite Ht in T.
+    destruct (p_gid p =? g).
+    + (* the winning write that returns now *)
+      inversion A. subst r. clear A. unfold lr in *. cbn [lr_kind lr_key lr_rev lr_i lr_val lr_t] in *.
+      unfold lr_won in Wn. cbn [lr_kind lr_inner lr_rk] in Wn. apply andb_prop in Wn. destruct Wn as [Wk Ok]. apply Z.eqb_eq in Ok. subst rk.
+      assert (Kc : p_kind p = kCreate).
+      { apply Bool.orb_true_iff in Wk. destruct Wk as [Wk|Wk]; [apply Z.eqb_eq; exact Wk|].
+        apply andb_prop in Wk. destruct Wk as [Ku Kt]. apply Z.eqb_eq in Ku, Kt. pose proof (V1 op p Hop Ku). rewrite Kt in H. discriminate. }
+      assert (Hk : p_kind p <> kWatch) by (rewrite Kc; discriminate).
+      destruct (ret_applied b t i op oOk rev val p Hop G Hrk Hk) as (Ei & Dn & (r0 & v0 & t0 & Eap & Er)). specialize (Er eq_refl). subst r0.
+      destruct (V3 op p rev v0 t0 Hop Kc Eap Dn) as [X Y].
+      pose proof (no_claim_in_window b op p rev v0 t0 I2 IL IV Hop Kc Eap Dn) as Nf. rewrite Ei in *.
+      split; [exact Kc|]. split; [exact X|]. split; [apply St; exact Y|]. split; [exact Nf|].
+      exists op, p. rewrite Hp, Ed, Z.eqb_refl, Kc. change (kCreate =? kGet) with false. cbn [orb]. auto.
+    + assert (Tn : lr_t r = b_now b) by (pose proof (Ltime g r A); lia).
+      destruct (V4 g r A Wn Tn Hlt) as (K & X & Y & Fl & (o & c & Z1 & Z2 & Z3 & Z4 & Z5)).
+      split; [exact K|]. split; [exact X|]. split; [apply St; exact Y|]. split; [exact Fl|].
+      exists o, c. rewrite Hp, !Et, (Edt _ Z5). auto.
+  - intros j Fj. rewrite Ef in Fj. cbv zeta. rewrite Ea, Ec, El.
+    destruct (V5 j Fj) as (X & Y & (opx & cx & Z1 & Z2 & Z3 & Z4 & Z5) & (rh & rest & W1 & W2 & W3)). cbv zeta in X, Y, Z4, W1, W2, W3.
+    destruct (Hx j) as (_ & _ & Xo & _ & _ & Xe & _ & Xt & Xv). cbv zeta in Xo, Xe, Xt, Xv. rewrite Xo, Xe, Xt, Xv.
+    split; [exact X|]. split; [apply St; exact Y|]. split; [exists opx, cx; rewrite Hp, Et, (Edt _ Z5); auto|].
+    destruct ((i =? j) && (io_hb_op (inst_of b j) =? op) && (io_hb_te (inst_of b j) <? 0)) eqn:Ecd.
+    + (* the answer to j's attempt in flight: a success, taken as the new head view *)
+      apply andb_prop in Ecd. destruct Ecd as [Ecd Ete]. apply andb_prop in Ecd. destruct Ecd as [Eij Eop].
+      apply Z.eqb_eq in Eij, Eop. apply Z.ltb_lt in Ete. rewrite <- Eij in *. clear Eij.
+      assert (C : current b i op) by (unfold current; repeat split; assumption).
+      destruct (refresh_succeeds b t i op rk rev val IV G Hrk C) as (Ok & (q & Q1 & Q2 & Q3 & Q4 & Q5)). rewrite Hop in Q1. inversion Q1. subst q rk.
+      assert (Hk : p_kind p <> kWatch) by (rewrite (proj1 Q2); discriminate).
+      destruct (ret_applied b t i op oOk rev val p Hop G Hrk Hk) as (_ & Dn & _).
+      destruct (l_fcfg _ IL i Fj) as [c Hcf]. assert (Ecf : cfg_of b i = c) by (unfold cfg_of; rewrite Hcf; reflexivity).
+      destruct (t_cfg _ IT i c Hcf) as (Hpos & _ & _).
+      pose proof (fast_pend b t op p F Hop Hk Dn) as Ff. rewrite Q3, Ecf in Ff.
+      assert (Vc : view_cond b t i op oOk p = true).
+      { unfold view_cond. rewrite Eop, Z.eqb_refl. apply Z.ltb_lt in Ete. rewrite Ete. cbn [andb].
+        rewrite (proj1 Q2), (proj2 Q2). change (kUpdate =? kUpdate) with true. change (sHeartbeat =? sHeartbeat) with true. change (oOk =? oOk) with true.
+        rewrite Fj. cbn [andb]. change (v_stok (vinfo_of b (p_val p))) with (tok_of b (p_val p)). rewrite Q4, Z.eqb_refl. cbn [andb].
+        rewrite Ecf. apply fast_in_time; assumption. }
+      rewrite Z.eqb_refl, Vc. cbn [andb].
+      exists rev, (io_views (inst_of b i)). split; [reflexivity|]. split; [intros _; exact Q5|]. intros Hlt0. pose proof (t_now0 _ IT). lia.
+    + assert (Nv : (i =? j) && view_cond b t i op rk p = false).
+      { destruct (Z.eqb_spec i j) as [Eij|Eij]; [|reflexivity]. cbn [andb] in Ecd |- *. unfold view_cond. rewrite Eij. rewrite Ecd. reflexivity. }
+      rewrite Nv. exists rh, rest. split; [exact W1|]. split; [exact W2|]. intros Te.
+      destruct (W3 Te) as (q & P1 & P2 & P3 & P4 & P5 & P6 & P7). exists q. rewrite Hp, Et. repeat split; auto; try apply P4.
+Qed.
+
+(* ---------------------------------------------------------------- the claim is raised *)
+Lemma V_flag b t i fl cause root gid :
+  Inv b -> Inv2 b -> LInv b -> TInv b -> VInv b -> guards b (t, EFlag i fl cause root gid) = [] ->
+  VInv (bapply b (t, EFlag i fl cause root gid)).
+Proof.
+  intros I I2 IL IT IV G. pose proof (guards_urgency _ _ G) as (_ & _ & Go & Hn). cbn [fst] in Hn.
+  pose proof (guards_split _ _ G) as (G0 & _).
+  cbn in G0, Go. cbn [bapply]. destruct (zb fl) eqn:Efl.
+  2:{ revert IV. apply (V_frame b); auto; try reflexivity; try (cbn; lia).
+      - intros j. rewrite inst_of_upd. destruct (Z.eqb_spec i j) as [E|E]; [subst j|]; reflexivity.
+      - intros j. rewrite inst_of_upd. destruct (Z.eqb_spec i j) as [E|E]; [subst j; cbn; discriminate|]. intros Fj. split; [exact Fj|]. repeat split. }
+  apply app_nil_l2 in G0. destruct G0 as [_ G0]. apply app_nil_l2 in G0. destruct G0 as [G31 G0]. apply app_nil_l2 in G0. destruct G0 as [_ G0].
+  apply pwhen_nil in G31.
+  change (b_rets (b <| b_now := t |>)) with (b_rets b).
+  destruct (aget (b_rets b) gid) as [r|] eqn:Hg; [|discriminate].
+  apply app_nil_l2 in G0. destruct G0 as [G1 G2]. apply pwhen_nil in G1. apply pwhen_nil in G2.
+  apply Bool.negb_false_iff in G1, G2. cbn [fst] in G2. apply Z.eqb_eq in G2.
+  apply andb_prop in G1. destruct G1 as [G1 Gk]. apply andb_prop in G1. destruct G1 as [Gw Gi]. apply Z.eqb_eq in Gk, Gi.
+  apply pwhen_nil in Go. apply Z.leb_gt in Go.
+  pose proof (l_time _ IL) as Ltime.
+  assert (Tn : lr_t r = b_now b) by (pose proof (Ltime gid r Hg); lia).
+  assert (Tb : b_now b = t) by lia.
+  destruct IV as [V1 V2 V3 V4 V5]. pose proof (mkV b V1 V2 V3 V4 V5) as IV.
+  rewrite <- Gi in Go.
+  destruct (V4 gid r Hg Gw Tn Go) as (Kr & Xr & Yr & Flr & (oc & cc & C1 & C2 & C3 & C4 & C5)). rewrite Gi in *.
+  match goal with |- VInv ?x => set (b' := x) end.
+  set (x' := inst_of b i <| io_flag := true |> <| io_tok := v_stok (vinfo_of b (lr_val r)) |> <| io_acq_rev := lr_rev r |>
+                        <| io_terms ::= Z.succ |> <| io_views ::= cons (v_stok (vinfo_of b (lr_val r)), lr_rev r) |>
+                        <| io_hb_ta := t |> <| io_hb_te := t |> <| io_hb_op := 0 |>).
+  assert (Hi : forall j, inst_of b' j = if i =? j then x' else inst_of b j).
+  { intros j. unfold b'. rewrite inst_of_upd. reflexivity. }
+  assert (T0 : 0 <= t) by (pose proof (t_now0 _ IT); lia).
+  (* nobody's attempt is in flight that was not before; i has none *)
+  assert (Cur : forall j o, current b' j o -> j <> i /\ current b j o).
+  { intros j o (Fj & Te & Eo). rewrite Hi in Fj, Te, Eo. destruct (Z.eqb_spec i j) as [E|E]; [cbn in Te; lia|]. split; [congruence|unfold current; auto]. }
+  assert (St : forall j R, stale b j R -> stale b' j R).
+  { intros j R S o q A Hh Hj Hn' Hnc. apply (S o q A Hh Hj Hn'). intros (Fj & Te & Eo). apply Hnc.
+    unfold current. rewrite Hi. destruct (Z.eqb_spec i j) as [E|E]; [subst j; congruence|auto]. }
+  constructor.
+  - exact V1.
+  - exact V2.
+  - intros o c r0 v ta A K Ea D. destruct (V3 o c r0 v ta A K Ea D) as [X Y]. split; [exact X|apply St; exact Y].
+  - intros g r'. change (b_rets b') with (b_rets b). change (b_now b') with t. rewrite Hi. intros A Wn T Hlt.
+    assert (Tn' : lr_t r' = b_now b) by lia.
+    destruct (Z.eqb_spec i (lr_i r')) as [E|E].
+    + (* a second winning write of i returned at this instant: both would be the key's latest revision *)
+      exfalso. cbn in Hlt.
+      assert (Hlt0 : io_acq_rev (inst_of b i) < lr_rev r') by lia. rewrite E in Hlt0.
+      destruct (V4 g r' A Wn Tn' Hlt0) as (_ & Xr' & _).
+      destruct (t_ret _ IT g r' A Wn) as [K1 _]. destruct (t_ret _ IT gid r Hg Gw) as [K2 _]. rewrite <- E in K1. rewrite Gi in K2.
+      rewrite K1 in Xr'. rewrite K2 in Xr. lia.
+    + destruct (V4 g r' A Wn Tn' Hlt) as (K & X & Y & Fl & Z0). split; [exact K|]. split; [exact X|]. split; [apply St; exact Y|]. split; [exact Fl|exact Z0].
+  - intros j Fj. rewrite Hi in Fj |- *. cbv zeta. change (cfg_of b' j) with (cfg_of b j).
+    destruct (Z.eqb_spec i j) as [E|E].
+    + subst j. unfold x'. cbn. change (v_stok (vinfo_of b (lr_val r))) with (tok_of b (lr_val r)).
+      assert (El : forall k, last_rev_of b' k = last_rev_of b k) by reflexivity.
+      assert (Et : forall v, tok_of b' v = tok_of b v) by reflexivity.
+      rewrite !El. rewrite <- Gk. split; [lia|]. split; [apply St; exact Yr|]. split; [exists oc, cc; rewrite Et; auto|].
+      exists (lr_rev r), (io_views (inst_of b i)). split; [reflexivity|]. split; [intros _; exact Xr|intros; lia].
+    + destruct (V5 j Fj) as (X & Y & Z0 & W). split; [exact X|]. split; [apply St; exact Y|]. split; [exact Z0|exact W].
+Qed.
+
+(* ---------------------------------------------------------------- the record ages out *)
+Lemma V_expire b t key rev :
+  Inv b -> Inv2 b -> LInv b -> VInv b -> b_now b <= t -> env_okb b (t, EExpire key rev) = true ->
+  VInv (bapply b (t, EExpire key rev)).
+Proof.
+  intros I I2 IL IV Hn E. cbn in E. apply Bool.negb_true_iff in E.
+  cbn [bapply]. match goal with |- VInv ?x => set (b' := x) end.
+  pose proof (l_time _ IL) as Ltime.
+  assert (El : forall k, k <> key -> last_rev_of b' k = last_rev_of b k).
+  { intros k Hne. unfold last_rev_of, last_of, b'. cbn. rewrite aget_adel_other; [reflexivity|exact Hne]. }
+  assert (Np : forall k i tk, claim b t k i tk -> k <> key).
+  { intros k i tk C Ek. subst k. rewrite (claim_protected b t key i tk (l_fcfg _ IL) C) in E. discriminate. }
+  assert (Cur : forall j o, current b' j o <-> current b j o) by (intros; unfold current; tauto).
+  assert (St : forall j R, stale b j R -> stale b' j R).
+  { intros j R S o q A Hh Hj Hn' Hnc. apply (S o q A Hh Hj Hn'). intros C. apply Hnc. apply Cur. exact C. }
+  destruct IV as [V1 V2 V3 V4 V5].
+  constructor.
+  - exact V1.
+  - exact V2.
+  - intros o c r v ta A K Ea D. destruct (V3 o c r v ta A K Ea D) as [X Y].
+    assert (Hk : p_key c <> key).
+    { apply (Np _ (p_i c) (tok_of b (p_val c))). apply (cl_win b t _ _ _ o c); auto; [unfold wonkind; rewrite K; reflexivity|unfold applied_ok; rewrite Ea; reflexivity]. }
+    rewrite (El _ Hk). split; [exact X|apply St; exact Y].
+  - intros g r A Wn T Hlt. change (b_now b') with t in T.
+    assert (Tn : lr_t r = b_now b) by (pose proof (Ltime g r A); lia).
+    destruct (V4 g r A Wn Tn Hlt) as (K & X & Y & Fl & Z0).
+    assert (Hk : lr_key r <> key) by (apply (Np _ (lr_i r) (tok_of b (lr_val r))); apply (cl_ret b t _ _ _ g r); auto).
+    rewrite (El _ Hk). split; [exact K|]. split; [exact X|]. split; [apply St; exact Y|]. split; [exact Fl|exact Z0].
+  - intros j Fj. cbv zeta. change (cfg_of b' j) with (cfg_of b j). change (inst_of b' j) with (inst_of b j) in *.
+    destruct (V5 j Fj) as (X & Y & Z0 & (rh & rest & W1 & W2 & W3)). cbv zeta in X, Y, W1, W2, W3.
+    assert (Hk : ic_key (cfg_of b j) <> key) by (apply (Np _ j (io_tok (inst_of b j))); apply cl_flag; auto).
+    rewrite (El _ Hk). split; [exact X|]. split; [apply St; exact Y|]. split; [exact Z0|].
+    exists rh, rest. split; [exact W1|]. split; [exact W2|]. intros Te. destruct (W3 Te) as (q & P1 & P2 & P3 & P4 & P5 & P6 & P7).
+    exists q. repeat split; auto; try apply P4.
+Qed.
+
+(* ---------------------------------------------------------------- every observation *)
+Ltac v_quiet I I2 IL IV Hn :=
+  cbn [bapply];
+  repeat match goal with |- VInv (if ?c then _ else _) => destruct c end;
+  revert IV; apply (V_frame _ _ I I2 IL); try reflexivity; try (cbn; exact Hn);
+  try (intros j; rewrite inst_of_upd; split_ij j; reflexivity);
+  try (intros j; rewrite inst_of_upd; split_ij j; cbn; intros Hflagq; (split; [exact Hflagq|repeat split]));
+  try (intros j Hflagq; split; [exact Hflagq|repeat split]).
+
+Lemma V_step b te :
+  Inv b -> Inv2 b -> LInv b -> TInv b -> VInv b -> guards b te = [] -> env_okb b te = true -> fastb b (fst te) = true ->
+  (match snd te with ERet _ _ rk _ _ => rk < 10 | _ => True end) ->
+  VInv (bapply b te).
+Proof.
+  intros I I2 IL IT IV G E F Hrk. pose proof (guards_urgency _ _ G) as (_ & _ & _ & Hn).
+  pose proof (guards_split _ _ G) as (G0 & _).
+  destruct te as [t e]. cbn [fst snd] in *.
+  destruct e.
+  - apply V_instdef; assumption.
+  - (* EValDef *)
+    revert IV. apply (V_frame _ _ I I2 IL); try reflexivity; try (cbn; exact Hn).
+    + intros x S. apply (vinfo_stable b _ x G0 S).
+    + intros j Fj. split; [exact Fj|repeat split].
+  - apply V_issue; assumption.
+  - apply V_apply; assumption.
+  - apply V_ret; assumption.
+  - apply V_flag; assumption.
+  - v_quiet I I2 IL IV Hn.
+  - v_quiet I I2 IL IV Hn.
+  - v_quiet I I2 IL IV Hn.
+  - v_quiet I I2 IL IV Hn.
+  - v_quiet I I2 IL IV Hn.
+  - v_quiet I I2 IL IV Hn.
+  - v_quiet I I2 IL IV Hn.
+  - v_quiet I I2 IL IV Hn.
+  - v_quiet I I2 IL IV Hn.
+  - v_quiet I I2 IL IV Hn.
+  - v_quiet I I2 IL IV Hn.
+  - v_quiet I I2 IL IV Hn.
+  - v_quiet I I2 IL IV Hn.
+  - v_quiet I I2 IL IV Hn.
+  - cbn in E. discriminate.
+  - cbn in E. discriminate.
+  - apply V_expire; assumption.
+  - v_quiet I I2 IL IV Hn.
+  - v_quiet I I2 IL IV Hn.
+  - v_quiet I I2 IL IV Hn.
+  - v_quiet I I2 IL IV Hn.
+  - v_quiet I I2 IL IV Hn.
+  - v_quiet I I2 IL IV Hn.
+  - v_quiet I I2 IL IV Hn.
+  - v_quiet I I2 IL IV Hn.
+  - v_quiet I I2 IL IV Hn.
+  - v_quiet I I2 IL IV Hn.
+  - v_quiet I I2 IL IV Hn.
+  - v_quiet I I2 IL IV Hn.
+Qed.
+
+(* ---------------------------------------------------------------- the environment without the refresh clause *)
+Lemma envC_envT_ret b t i op rk rev val :
+  VInv b -> guards0 b (t, ERet i op rk rev val) = [] -> (rk <? 10) = true ->
+  (rk <? 10) && (negb ((op =? io_hb_op (inst_of b i)) && (io_hb_te (inst_of b i) <? 0) && io_flag (inst_of b i)) || (rk =? oOk)) = true.
+Proof.
+  intros IV G0 E. rewrite E. cbn [andb]. apply Z.ltb_lt in E.
+  destruct ((op =? io_hb_op (inst_of b i)) && (io_hb_te (inst_of b i) <? 0) && io_flag (inst_of b i)) eqn:Hc; [|reflexivity].
+  apply andb_prop in Hc. destruct Hc as [Hc Fi]. apply andb_prop in Hc. destruct Hc as [Eo Te]. apply Z.eqb_eq in Eo. apply Z.ltb_lt in Te.
+  assert (C : current b i op) by (unfold current; repeat split; auto).
+  destruct (refresh_succeeds b t i op rk rev val IV G0 E C) as [Ok _]. subst rk. reflexivity.
+Qed.
+
+Lemma envC_envT b te :
+  VInv b -> guards b te = [] -> envC_okb b te = true -> envT_okb b te = true.
+Proof.
+  intros IV G E. pose proof (guards_split _ _ G) as (G0 & _).
+  destruct te as [t e]. unfold envC_okb in E. unfold envT_okb. cbn [fst snd] in *.
+  apply andb_prop in E. destruct E as [F E]. rewrite F. cbn [andb].
+  destruct e; try exact E.
+  eapply envC_envT_ret; eassumption.
+Qed.
+
+Lemma admitted_prefix5 tr : forall b, Inv b -> Inv2 b -> LInv b -> TInv b -> ND b -> VInv b ->
+  admits b tr = true -> envC_admits b tr = true ->
+  forall pre te post, tr = pre ++ te :: post -> LInv (bapply (fold_left bapply pre b) te).
+Proof.
+  induction tr as [|x tr IH]; intros b I I2 IL IT N IV A E pre te post Eq.
+  - destruct pre; discriminate.
+  - cbn in A, E. destruct (guards b x) eqn:G; [|discriminate]. apply andb_prop in E. destruct E as [E1 E2].
+    pose proof (envC_envT b x IV G E1) as ET.
+    pose proof (envT_env b x I2 IL IT N G ET) as E0.
+    pose proof (L_step b x I I2 IL G E0) as IL'.
+    destruct pre as [|y pre]; cbn in Eq.
+    + inversion Eq. subst x post. cbn. exact IL'.
+    + inversion Eq. subst y. cbn [fold_left].
+      pose proof (T_step b x I2 IL IT G ET) as IT'.
+      assert (F : fastb b (fst x) = true) by (unfold envC_okb in E1; apply andb_prop in E1; tauto).
+      assert (Hrk : match snd x with ERet _ _ rk _ _ => rk < 10 | _ => True end).
+      { unfold envC_okb in E1. apply andb_prop in E1. destruct E1 as [_ E1]. destruct (snd x); try exact Logic.I. apply Z.ltb_lt. exact E1. }
+      pose proof (V_step b x I I2 IL IT IV G E0 F Hrk) as IV'.
+      apply guards_split in G. destruct G as [G _].
+      eapply IH; eauto; [apply Inv_step|apply Inv2_step|apply ND_step]; assumption.
+Qed.
+
+(* C02 in the environment the property names, with nothing about refreshes assumed *)
+Theorem C02_mutual_exclusion_fast_store_full tr :
+  admits base0 tr = true -> envC_admits base0 tr = true ->
+  forall pre te post, tr = pre ++ te :: post ->
+    ~ In 201 (mon_C02 (bapply (brun pre) te) te) /\ ~ In 202 (mon_C02 (bapply (brun pre) te) te).
+Proof.
+  intros A E pre te post Eq. apply C02_monitor.
+  apply (admitted_prefix5 tr base0 Inv0 Inv2_0 LInv0 TInv0 ND0 VInv0 A E pre te post Eq).
+Qed.
+
+From LE Require Import Witness2.
+Lemma lease_witness_envC : envC_admits base0 lease_witness = true.
+Proof. vm_compute. reflexivity. Qed.
